@@ -12,7 +12,7 @@ REQUIRED_MONITORS = ["labels@SC_apply(function)", "labels@SC_apply(inside SSIcov
                      "labels@SC_apply(inside SSIcov_MS.run)", "labels@SC_apply(inside pLSCF_MS.run)", "purity@SC_apply", "result.Lab==labels of final tables"]
 ALL_STATES = ["stable", "fails fn only", "fails xi only", "fails MAC only", "fails several", "prev column empty", "NaN pole", "below ordmin", "first column",
               "above ordmax", "nearest neighbour is not the same row"]
-REQUIRED_STATES = ["ordmin = ordmax", "tolerances 1e-6..1e-7 on small damping / frequency", "run with covariance criterion", "stable", "fails fn only", "fails xi only", "fails MAC only", "prev column empty", "NaN pole", "below ordmin", "first column",
+REQUIRED_STATES = ["tolerance dictionary in another key order", "ordmin = ordmax", "tolerances 1e-6..1e-7 on small damping / frequency", "run with covariance criterion", "stable", "fails fn only", "fails xi only", "fails MAC only", "prev column empty", "NaN pole", "below ordmin", "first column",
                    "nearest neighbour is not the same row"]
 RULE = ("pole tables up to 40 orders x 12 rows with random / structured NaN patterns, per-column row shuffles, duplicates and close frequencies, "
         "complex shapes and perturbations straddling each tolerance; every cell's label compared with an independent model (nearest finite "
@@ -200,6 +200,11 @@ def run_inside(ctx, rng):
     nch = int(rng.integers(4, 6))
     data, *_ = gen.sim_response(rng, nch, int(rng.integers(3000, 6000)), 100.0, m=3, complex_modes=bool(rng.integers(0, 2)))
     sc = dict(err_fn=float(rng.choice([0.005, 0.01, 0.03])), err_xi=float(rng.choice([0.05, 0.2])), err_phi=float(rng.choice([0.02, 0.05])))
+    if rng.random() < 0.5:
+        # the tolerances are named: a dictionary written in another key order means the same
+        sc = {k: sc[k] for k in [str(x) for x in rng.permutation(list(sc))]}
+        if list(sc) != ["err_fn", "err_xi", "err_phi"]:
+            ctx.state("tolerance dictionary in another key order")
     ordmin_s = int(rng.choice([0, 0, 3, 6, 18]))
     ordmin_p = int(rng.choice([0, 0, 1, 2, 3, 7]))
     specs = [("SSIcov", SSIcov, dict(br=8, ordmax=18, ordmin=ordmin_s, sc=sc)), ("SSIdat", SSIdat, dict(br=8, ordmax=18, ordmin=ordmin_s, sc=sc)),
